@@ -31,6 +31,7 @@ func Reset(k1, k2 int64) {
 	failAt[1].Store(k2)
 	l := []string{}
 	log.Store(&l)
+	Names = nil
 }
 
 // Calls returns how many fault points were passed since Reset.
@@ -42,6 +43,14 @@ func Trace() []string {
 		return *p
 	}
 	return nil
+}
+
+// Names is the path argument of every fault point passed since Reset (diagnostics only).
+var Names []string
+
+func pointN(label, name string) error {
+	Names = append(Names, label+" "+name)
+	return point(label)
 }
 
 func point(label string) error {
@@ -58,21 +67,21 @@ func point(label string) error {
 func IsNotExist(err error) bool { return os.IsNotExist(err) }
 
 func Remove(name string) error {
-	if err := point("Remove"); err != nil {
+	if err := pointN("Remove", name); err != nil {
 		return err
 	}
 	return os.Remove(name)
 }
 
 func MkdirAll(path string, perm FileMode) error {
-	if err := point("MkdirAll"); err != nil {
+	if err := pointN("MkdirAll", path); err != nil {
 		return err
 	}
 	return os.MkdirAll(path, perm)
 }
 
 func Stat(name string) (FileInfo, error) {
-	if err := point("Stat"); err != nil {
+	if err := pointN("Stat", name); err != nil {
 		return nil, err
 	}
 	return os.Stat(name)
@@ -82,7 +91,7 @@ func Stat(name string) (FileInfo, error) {
 type File struct{ f *os.File }
 
 func Create(name string) (*File, error) {
-	if err := point("Create"); err != nil {
+	if err := pointN("Create", name); err != nil {
 		return nil, err
 	}
 	f, err := os.Create(name)
@@ -93,7 +102,7 @@ func Create(name string) (*File, error) {
 }
 
 func Open(name string) (*File, error) {
-	if err := point("Open"); err != nil {
+	if err := pointN("Open", name); err != nil {
 		return nil, err
 	}
 	f, err := os.Open(name)
@@ -119,4 +128,21 @@ func (f *File) Close() error {
 		return nil
 	}
 	return f.f.Close()
+}
+
+// ReadFile / WriteFile: fault points of the reload path (YAML loader, generated files).
+func ReadFile(name string) ([]byte, error) {
+	if err := pointN("ReadFile", name); err != nil {
+		return nil, err
+	}
+	return os.ReadFile(name)
+}
+
+func WriteFile(name string, data []byte, perm FileMode) error {
+	if err := pointN("WriteFile", name); err != nil {
+		// a failed write leaves half of the content behind
+		_ = os.WriteFile(name, data[:len(data)/2], perm)
+		return err
+	}
+	return os.WriteFile(name, data, perm)
 }
